@@ -6,7 +6,7 @@ from .c09 import parser
 LOGICS = ['PL', 'CTLS', 'CTL', 'LTL']
 VOCAB = ['A', 'E', 'X', 'F', 'G', 'U', 'R', 'not', 'and', 'or', '-->', '~', '&', '|', 'true',
          'false', 'p', 'q', 'r', '(', ')', '"a b"', 'Ap', 'andy', 'Uq', 'notp', 'EX', 'AG',
-         '"x\\"y"', '""', '_1', '"and"', '"\\\\"', '"A G p"', '"a\\\\"', '"(p)"']
+         '"x\\"y"', '""', '_1', '"and"', '"\\\\"', '"A G p"', '"a\\\\"', '"(p)"', '" x "', '"x "', '" "']
 JUNK = ['1', '$', '"', '\\', '-', '>', '->', '=>', '[', ']', 'é', '1p', '!', '.', ',', '\n', '\t',
         '0', "'q'", '<->', '^', '@', '#', ';', '{', '}', '\x00']
 
